@@ -8,7 +8,8 @@ LEVEL = 'other'
 from rules.search import r01_6
 from rules.utilfn import r10_7
 from rules.utilfn import r10_8
-RULES = [('R03.1', r03_1), ('R09.1', r09_1), ('R10.1', r10_1), ('R10.2', r10_2), ('R10.3', r10_3), ('R10.4', r05_3), ('R10.5', r10_5), ('R10.6', r10_6), ('R01.6', r01_6), ('R10.7', r10_7), ('R10.8', r10_8)]
+from rules.utilfn import r13_8
+RULES = [('R03.1', r03_1), ('R09.1', r09_1), ('R10.1', r10_1), ('R10.2', r10_2), ('R10.3', r10_3), ('R10.4', r05_3), ('R10.5', r10_5), ('R10.6', r10_6), ('R01.6', r01_6), ('R10.7', r10_7), ('R10.8', r10_8), ('R13.8', r13_8)]
 EXPLANATION = """R10.1 Input::set_span stores a span only if end <= haystack.len() and start <= end + 1 (else it panics), stores its argument,
 and is with Input::new the only writer of Input.span / Input.haystack (private fields); Input::new sets 0..len; is_done() = start > end;
 the getters return the fields. R10.2 both drivers return the empty result on the done edge before touching the automaton. R10.3 the
